@@ -784,8 +784,8 @@ func init() {
 			deadline = time.Now().Add(12 * time.Minute)
 		}
 		if os.Getenv("VERIF_SEARCH") != "" {
-			// search for a failing input after a broken tie: 10x the quick budget, at most 90 s
-			n = 1200 * tr.EnvInt("VERIF_BUDGET", 1)
+			// search for a failing input after a broken tie: 3x the quick budget, at most 90 s
+			n = 3 * 1200
 			deadline = time.Now().Add(90 * time.Second)
 		}
 		for i := 0; i < n; i++ {
